@@ -129,3 +129,44 @@ Print Assumptions C14_refuted_1.
 Theorem C14_refuted_2 : exists c, C14.wf c = true /\ C14.kf c = 2%N /\ C14.spec c (C14.model c) = false.
 Proof. exact refuted_2. Qed.
 Print Assumptions C14_refuted_2.
+
+(* ---- the regenerated constants this property's predicate / model rest on, against literals.
+   Gen/Consts.v is rewritten from the source of /repo on every run, so without this theorem an
+   edit of one of these constants would move model, predicate and code together and nothing
+   would be reported.  Used by: Model/AtomParse.v and the reference Model/PMSGrammar.v share the comparable-version encoding and the character classes (the two regular expressions are pinned by C14_regex_pinned).
+   "frozen" = no manual text gives the value; it is the value of the reviewed tree. *)
+From LC Require Import Gen.Consts Proofs.C14PinsP.
+Local Open Scope string_scope.
+Theorem C14_constants_pinned :
+  (* frozen from the reviewed tree (portage/parse/chartype.go) *)
+  PP_isNameVerChar = bs "a-zA-Z0-9/_+*.-" /\
+  (* PMS 3.1.3: a slot name starts with [A-Za-z0-9_] *)
+  PP_isSlotNameStartChar = bs "a-zA-Z0-9_" /\
+  (* PMS 3.1.3: [A-Za-z0-9+_.-] *)
+  PP_isSlotNameMidChar = bs "a-zA-Z0-9+_.-" /\
+  (* PMS 3.1.5: [A-Za-z0-9_-] *)
+  PP_isRepoNameChar = bs "a-zA-Z0-9_-" /\
+  (* frozen from the reviewed tree (characters of a bracketed USE-dependency list) *)
+  PP_isUseDepChar = bs "a-zA-Z0-9+_@!?=(),-" /\
+  (* PMS 3.1.4: [A-Za-z0-9+_@-] *)
+  PP_IsUseFlagChar = bs "a-zA-Z0-9+_@-" /\
+  (* frozen from the reviewed tree (width pinned by portage/atom/decode_test.go; known finding C13 id=1) *)
+  PA_numericVersionSegmentWidth = 5%N /\
+  (* frozen from the reviewed tree (comparable form: _alpha < _beta < _pre < _rc < none < _p as _a.._d, _n, _p) *)
+  PA_releaseSuffixAlpha = bs "_a" /\
+  (* frozen from the reviewed tree *)
+  PA_releaseSuffixBeta = bs "_b" /\
+  (* frozen from the reviewed tree *)
+  PA_releaseSuffixPre = bs "_c" /\
+  (* frozen from the reviewed tree *)
+  PA_releaseSuffixRc = bs "_d" /\
+  (* frozen from the reviewed tree *)
+  PA_releaseSuffixNormal = bs "_n" /\
+  (* frozen from the reviewed tree *)
+  PA_releaseSuffixPatch = bs "_p" /\
+  (* frozen from the reviewed tree (-r0 at width 5) *)
+  PA_defaultRevision = bs "r00000" /\
+  (* frozen from the reviewed tree *)
+  PA_maxAlphaVersion = bs "zzzzz".
+Proof. exact c14_constants_pinned. Qed.
+Print Assumptions C14_constants_pinned.
